@@ -1068,7 +1068,14 @@ abs = absolute
 def floor(x): return unop(x, lambda e: e.floor() if isinstance(e, (SFP, XR)) else e, rnp.floor)
 def ceil(x): return unop(x, lambda e: e.ceil(), rnp.ceil)
 def rint(x): return unop(x, lambda e: e.rint(), rnp.rint)
-def sqrt(x): return unop(x, lambda e: _fl(e).sqrt(), rnp.sqrt, DT64)
+def sqrt(x):
+    if core.OPT['symbolic_transc'] and core.MODE['float'] == 'xr':
+        if isinstance(x, (SArr, rnp.ndarray, list, tuple)):
+            x = asarray(x)
+            r = _frompy(lambda e: core.R(e).sqrt(), 1, 1)(_obj(x))
+            return mk(r, DT64) if isinstance(r, rnp.ndarray) else r
+        return core.R(x).sqrt()
+    return unop(x, lambda e: _fl(e).sqrt(), rnp.sqrt, DT64)
 def square(x): return binop(x, x, 'mul')
 def negative(x): return unop(x, operator.neg, rnp.negative)
 
@@ -1095,7 +1102,7 @@ def _transc(name):
         raise NotModelled('numpy.%s on %r' % (name, type(e)))
     real = getattr(rnp, name)
     def f(x, **kw):
-        if all_concrete(x):
+        if all_concrete(x) and not (core.OPT['symbolic_transc'] and core.MODE['float'] == 'xr'):
             return wrap(real(unwrap(x)))
         if isinstance(x, SMasked):
             dom = (lambda d: d <= 0) if name.startswith('log') else None
